@@ -11,7 +11,7 @@ CORE12 = ["add", "times", "paren", "frac", "sqrt", "root", "sup", "sub", "sum", 
 
 def corpus(tier):
     """list of (label, shape) ; terms are built per locale mark by the worker"""
-    shapes = [(terms.shape_name(sh), sh) for sh in terms.spine_shapes(2)]
+    shapes = [(terms.shape_name(sh), sh) for sh in terms.spine_shapes(2, terms.ALL_NAMES)]
     deep = [(terms.shape_name(sh), sh) for sh in terms.spine_shapes(3, CORE12) if sh[2] is not None and sh[2][2] is not None]
     deep4 = []
     if tier == "thorough":
@@ -163,7 +163,7 @@ def work(item):
     if ck not in _ALONE:
         alone = set()
         d1 = []
-        for name, slots, _ in terms.CONSTRUCTS:
+        for name, slots, _ in terms.CONSTRUCTS + terms.EXTRA_CONSTRUCTS:
             f = terms.Filler("num", mark)
             d1.append((name, terms.build((name, None, None), f), list(f.planted)))
         _, r1 = mc.run_cases(setup, [[["mathml", terms.doc(t)], ["speech"]] for _, t, _ in d1])
@@ -247,7 +247,7 @@ def main(tier):
     run.count("terms_depth_le2", len(shapes))
     run.count("terms_depth3_core", len(deep))
     run.count("terms_depth4_core", len(deep4))
-    d1 = [(terms.shape_name(sh), sh) for sh in terms.spine_shapes(1)]
+    d1 = [(terms.shape_name(sh), sh) for sh in terms.spine_shapes(1, terms.ALL_NAMES)]
     sp_cases = special_cases(shapes if tier == "thorough" else d1 + [(terms.shape_name(sh), sh) for sh in terms.spine_shapes(2, CORE12) if sh[2] is not None])
     run.count("special_literal_cases", len(sp_cases))
     jobs = []
